@@ -182,18 +182,28 @@ func genModuleSet(r *rng, wantConflicts int) *wlMerge {
 	m := genDSLModel(r)
 	wl := &wlMerge{Variant: "base", Schema: []string{"1.2", "1.1", "1.2", "2.0-x"}[r.intn(4)]}
 	nmod := 1 + r.intn(4)
+	many := r.chance(5) // 8-16 files: beyond "a handful" thresholds
+	if many {
+		nmod = 4 + r.intn(3)
+	}
 	var files []*PFile
 	for _, i := range r.perm(len(modNames))[:nmod] {
 		nf := 1 + r.intn(2)
+		if many {
+			nf = 2 + r.intn(2)
+		}
 		for j := 0; j < nf; j++ {
 			name := modNames[i] + ".fga"
 			if j > 0 || r.chance(30) {
 				name = fmt.Sprintf("%s/%c.fga", modNames[i], 'a'+j)
 			}
+			if many && j > 0 && r.chance(15) {
+				name = modNames[i] + ".fga" // base names collide: two files under one name
+			}
 			files = append(files, &PFile{Name: name, Kind: "module", Module: modNames[i], Layout: []string{"", "", "", "", "wide", "tabs", "mixed"}[r.intn(7)]})
 		}
 	}
-	if len(files) > 6 {
+	if len(files) > 6 && !many {
 		files = files[:6]
 	}
 	pickFile := func(not *PFile) *PFile {
